@@ -113,6 +113,8 @@ def stage_pipeline(i, rec, root):
     ok = rc == 0
     if ok != (rec['exit'] == 'ok'):
         out.append(finding('C15', 'exit_status', f'exit status {rc}, the specification expects {rec["exit"]} ({se[-200:].decode(errors="replace")})', inp_desc, i))
+        if fault == 'uncovered_sale':
+            out.append(dict(out[-1], prop='C05'))
         return out, 1
     if rec['out'] == 'empty' and so.strip() != b'':
         out.append(finding('C15', 'stdout_on_failure' if not ok else 'stdout_unexpected', f'{len(so)} bytes on standard output; expected none: {so[:200]!r}', inp_desc, i))
@@ -143,6 +145,9 @@ def stage_pipeline(i, rec, root):
             mask = lambda b: re.sub(rb'# Converted: [^\n]*', b'# Converted: <t>', b or b'').strip()
             if rc2 != 0 or got is None or mask(got) != mask(so2) or not mask(got):
                 out.append(finding('C15', 'incomplete_output', f'output differs from the reference run without --output ({len(got or b"")} vs {len(so2)} bytes)', inp_desc, i))
+    # an uncovered sale must leave no report, partial or otherwise, from the CLI: that is C05's statement as well
+    if fault == 'uncovered_sale':
+        out += [dict(f, prop='C05') for f in out if f['prop'] == 'C15' and f['kind'] in ('exit_status', 'stdout_on_failure', 'stray_output_file', 'output_clobbered')]
     return out, nruns
 
 
